@@ -260,6 +260,10 @@ class Run:
         t3 = vtime.pending(kind="_on_wait_cra_timeout", owner=self.h.communication_state)
         if not timers and not t3:
             self.violation(f"M2:no-retry-scheduled-after-{why}-attempt", pending=[t.kind for t in vtime.pending()])
+        elif why == "refused" and not timers:
+            # an explicit refusal ends the attempt: the retry is due after the establish-communications delay, not after
+            # the reply time-out of a request that has already been answered
+            self.violation("M2:refused-attempt-not-followed-by-the-delay", comm=self.rig.comm_state, pending=[t.kind for t in t3])
 
     def ev_other(self, s, f, wbit):
         system = next(self.sysgen)
